@@ -37,9 +37,9 @@ Proof. repeat split; vm_compute; reflexivity. Qed.
        also without [from] being a prefix of [path], through the alias that copy creates:
        [{"op":"copy","from":"/a","path":"/b"},{"op":"move","from":"/a","path":"/b/c"}] on {"a":{"x":1}} *)
 Theorem jp_crash_witness_cycle :
-  jp_apply (JArr [opj "copy" "/a/-" [(bs "from", S_ "/a")]]) doc_a12 = Crash
+  jp_apply (JArr [opj "copy" "/a/-" [(bs "from", S_ "/a")]]) doc_a12 = Fatal
   /\ jp_apply (JArr [opj "copy" "/b" [(bs "from", S_ "/a")]; opj "move" "/b/c" [(bs "from", S_ "/a")]])
-              (JObj [(bs "a", JObj [(bs "x", jn 1)])]) = Crash.
+              (JObj [(bs "a", JObj [(bs "x", jn 1)])]) = Fatal.
 Proof. split; vm_compute; reflexivity. Qed.
 
 (* (c) nil dereferences:
@@ -54,11 +54,12 @@ Theorem jp_crash_witness_other :
   /\ jp_apply (JArr [opj "test" "/zz" []]) (JObj []) = Crash
   /\ jp_apply (JArr [opj "test" "/a" [(bs "value", JArr [JNull])]]) (JObj [(bs "a", JArr [JNull])]) = Crash
   /\ jp_apply (JArr [opj "add" "/a" [(bs "value", jn 1)]]) JNull = Crash
-  /\ jp_apply (JArr [opj "copy" "/a/99999999999" [(bs "from", S_ "/a/0")]]) doc_a12 = Crash.
+  /\ jp_apply (JArr [opj "copy" "/a/99999999999" [(bs "from", S_ "/a/0")]]) doc_a12 = Fatal
+  /\ jp_apply (JArr [opj "copy" "/a/9223372036854775806" [(bs "from", S_ "/a/0")]]) doc_a12 = Crash.
 Proof. repeat split; vm_compute; reflexivity. Qed.
 
 (* ====================================================================================== *)
-(* 2. the protected sections are NOT protected                                              *)
+(* 2. the inputs that defeated the old path check                                           *)
 (* ====================================================================================== *)
 
 Definition doc_pk : json :=
@@ -79,17 +80,21 @@ Definition ops_copy_alias : json :=
          [{"op":"remove","path":"x/publicKey"}] is accepted and removes the key section *)
 Definition ops_no_leading_slash : json := JArr [opj "remove" "x/publicKey" []].
 
-Theorem jsonpatch_protects_refuted :
-  (exists d', jsonpatch_paths_ok ops_move_from = true /\ jp_apply ops_move_from doc_pk = Ok d'
-              /\ jmember "publicKey" d' = None /\ jmember "publicKey" doc_pk <> None)
-  /\ (exists d', jsonpatch_paths_ok ops_copy_alias = true /\ jp_apply ops_copy_alias doc_pk = Ok d'
-              /\ jmember "publicKey" d' = Some (JArr [JObj [(bs "id", S_ "k1")]; JObj [(bs "id", S_ "evil")]]))
-  /\ (exists d', jsonpatch_paths_ok ops_no_leading_slash = true /\ jp_apply ops_no_leading_slash doc_pk = Ok d'
-              /\ jmember "publicKey" d' = None).
-Proof.
-  split; [|split]; eexists; repeat split; try (vm_compute; reflexivity).
-  vm_compute. discriminate.
-Qed.
+(* The three operation lists that used to be accepted (findings (ii), (ii'), (iii)) are rejected by
+   the repaired validateJSONPatches (commits cb19e9e, 4fc3d15) ... *)
+Example old_witnesses_now_rejected :
+  jsonpatch_paths_ok ops_move_from = false
+  /\ jsonpatch_paths_ok ops_copy_alias = false
+  /\ jsonpatch_paths_ok ops_no_leading_slash = false.
+Proof. repeat split; reflexivity. Qed.
+
+(* ... while the library itself is unchanged and would still damage the sections if they got through *)
+Example engine_alone_does_not_protect :
+  (exists d', jp_apply ops_move_from doc_pk = Ok d' /\ jmember "publicKey" d' = None)
+  /\ (exists d', jp_apply ops_copy_alias doc_pk = Ok d'
+        /\ jmember "publicKey" d' = Some (JArr [JObj [(bs "id", S_ "k1")]; JObj [(bs "id", S_ "evil")]]))
+  /\ (exists d', jp_apply ops_no_leading_slash doc_pk = Ok d' /\ jmember "publicKey" d' = None).
+Proof. split; [|split]; eexists; split; vm_compute; reflexivity. Qed.
 
 (* ====================================================================================== *)
 (* 3. pointer decoding and array insertion                                                  *)
@@ -424,6 +429,7 @@ Proof.
     destruct (idx <? 0)%Z; [discriminate|].
     destruct (idx <? zlen l)%Z.
     { inversion H. cbn. apply Forall_upd_nth; auto. }
+    destruct (idx >=? makeslice_limit)%Z; [discriminate|].
     destruct (idx - zlen l >? pad_limit)%Z; [discriminate|].
     inversion H. cbn. apply Forall_app. split; auto. apply Forall_app. split; [apply Forall_repeat; auto|auto].
 Qed.
@@ -523,7 +529,7 @@ Proof.
   intros h HI parts. induction parts as [|p rest IH]; intros r0 r Hw HS Hlt Hfirst.
   - cbn in Hw. inversion Hw. subst. auto.
   - cbn [walk] in Hw. unfold rbind in Hw.
-    destruct (c_get (node_at h r0) p) as [next| |] eqn:Eg; try discriminate.
+    destruct (c_get (node_at h r0) p) as [next| | |] eqn:Eg; try discriminate.
     assert (Hok : okv (length h) next) by (eapply get_okv; eauto).
     destruct next as [| | j | r']; try discriminate.
     cbn in Hok. destruct Hok as [HS' [Hne Hlt']].
@@ -550,7 +556,7 @@ Lemma find_object_unprot : forall h p r key,
 Proof.
   intros h p r key HI Hu Hf. unfold find_object in Hf. unfold unprot in Hu.
   destruct (decode_pointer p) as [toks|] eqn:Ed; [|discriminate].
-  destruct (walk h root (removelast toks)) as [r1| |] eqn:Ew; try discriminate.
+  destruct (walk h root (removelast toks)) as [r1| | |] eqn:Ew; try discriminate.
   inversion Hf. subst r1 key. clear Hf.
   destruct toks as [|t ts]; [exfalso; eapply decode_pointer_nonempty; eauto|].
   pose proof (removelast_first t ts) as Hrl.
@@ -700,9 +706,9 @@ Definition op_unprot (o : op) : Prop :=
 Lemma op_add_ok : forall h o h', Inv h -> unprot (o_path o) -> op_add h root o = ROk h' -> Inv h' /\ Frame h h'.
 Proof.
   intros h o h' HI Hu H. unfold op_add in H.
-  destruct (find_object h root (o_path o)) as [[r key]| |] eqn:Ef; cbn [rbind] in H; try discriminate.
+  destruct (find_object h root (o_path o)) as [[r key]| | |] eqn:Ef; cbn [rbind] in H; try discriminate.
   destruct (value_node o h) as [v h1] eqn:Ev.
-  destruct (c_add (node_at h1 r) key v) as [c| |] eqn:Ec; cbn [rbind] in H; try discriminate.
+  destruct (c_add (node_at h1 r) key v) as [c| | |] eqn:Ec; cbn [rbind] in H; try discriminate.
   inversion H. subst h'. clear H.
   destruct (find_object_unprot h _ r key HI Hu Ef) as [HS [Hlt Hk]].
   destruct (value_node_ok h o v h1 HI Ev) as [HI1 [HF1 [Hv Hsame]]].
@@ -714,8 +720,8 @@ Qed.
 Lemma op_remove_ok : forall h o h', Inv h -> unprot (o_path o) -> op_remove h root o = ROk h' -> Inv h' /\ Frame h h'.
 Proof.
   intros h o h' HI Hu H. unfold op_remove in H.
-  destruct (find_object h root (o_path o)) as [[r key]| |] eqn:Ef; cbn [rbind] in H; try discriminate.
-  destruct (c_remove (node_at h r) key) as [c| |] eqn:Ec; cbn [rbind] in H; try discriminate.
+  destruct (find_object h root (o_path o)) as [[r key]| | |] eqn:Ef; cbn [rbind] in H; try discriminate.
+  destruct (c_remove (node_at h r) key) as [c| | |] eqn:Ec; cbn [rbind] in H; try discriminate.
   inversion H. subst h'. clear H.
   destruct (find_object_unprot h _ r key HI Hu Ef) as [HS [Hlt Hk]].
   eapply remove_ok; eauto.
@@ -724,10 +730,10 @@ Qed.
 Lemma op_replace_ok : forall h o h', Inv h -> unprot (o_path o) -> op_replace h root o = ROk h' -> Inv h' /\ Frame h h'.
 Proof.
   intros h o h' HI Hu H. unfold op_replace in H.
-  destruct (find_object h root (o_path o)) as [[r key]| |] eqn:Ef; cbn [rbind] in H; try discriminate.
-  destruct (c_get (node_at h r) key) as [old| |] eqn:Eg; cbn [rbind] in H; try discriminate.
+  destruct (find_object h root (o_path o)) as [[r key]| | |] eqn:Ef; cbn [rbind] in H; try discriminate.
+  destruct (c_get (node_at h r) key) as [old| | |] eqn:Eg; cbn [rbind] in H; try discriminate.
   destruct (value_node o h) as [v h1] eqn:Ev.
-  destruct (c_set (node_at h1 r) key v) as [c| |] eqn:Ec; cbn [rbind] in H; try discriminate.
+  destruct (c_set (node_at h1 r) key v) as [c| | |] eqn:Ec; cbn [rbind] in H; try discriminate.
   inversion H. subst h'. clear H.
   destruct (find_object_unprot h _ r key HI Hu Ef) as [HS [Hlt Hk]].
   destruct (value_node_ok h o v h1 HI Ev) as [HI1 [HF1 [Hv Hsame]]].
@@ -740,11 +746,11 @@ Lemma op_move_ok : forall h o h', Inv h -> unprot (o_path o) -> unprot (o_from o
   op_move h root o = ROk h' -> Inv h' /\ Frame h h'.
 Proof.
   intros h o h' HI Hu Hufrom H. unfold op_move in H.
-  destruct (find_object h root (o_from o)) as [[r key]| |] eqn:Ef; cbn [rbind] in H; try discriminate.
-  destruct (c_get (node_at h r) key) as [v| |] eqn:Eg; cbn [rbind] in H; try discriminate.
-  destruct (c_remove (node_at h r) key) as [c| |] eqn:Ec; cbn [rbind] in H; try discriminate.
-  destruct (find_object (put h r c) root (o_path o)) as [[r2 key2]| |] eqn:Ef2; cbn [rbind] in H; try discriminate.
-  destruct (c_set (node_at (put h r c) r2) key2 v) as [c2| |] eqn:Ec2; cbn [rbind] in H; try discriminate.
+  destruct (find_object h root (o_from o)) as [[r key]| | |] eqn:Ef; cbn [rbind] in H; try discriminate.
+  destruct (c_get (node_at h r) key) as [v| | |] eqn:Eg; cbn [rbind] in H; try discriminate.
+  destruct (c_remove (node_at h r) key) as [c| | |] eqn:Ec; cbn [rbind] in H; try discriminate.
+  destruct (find_object (put h r c) root (o_path o)) as [[r2 key2]| | |] eqn:Ef2; cbn [rbind] in H; try discriminate.
+  destruct (c_set (node_at (put h r c) r2) key2 v) as [c2| | |] eqn:Ec2; cbn [rbind] in H; try discriminate.
   inversion H. subst h'. clear H.
   destruct (find_object_unprot h _ r key HI Hufrom Ef) as [HS [Hlt Hk]].
   pose proof (get_okv h r key v HI HS Hk Eg) as Hv.
@@ -759,10 +765,10 @@ Lemma op_copy_ok : forall h o h', Inv h -> unprot (o_path o) -> unprot (o_from o
   op_copy h root o = ROk h' -> Inv h' /\ Frame h h'.
 Proof.
   intros h o h' HI Hu Hufrom H. unfold op_copy in H.
-  destruct (find_object h root (o_from o)) as [[r key]| |] eqn:Ef; cbn [rbind] in H; try discriminate.
-  destruct (c_get (node_at h r) key) as [v| |] eqn:Eg; cbn [rbind] in H; try discriminate.
-  destruct (find_object h root (o_path o)) as [[r2 key2]| |] eqn:Ef2; cbn [rbind] in H; try discriminate.
-  destruct (c_set (node_at h r2) key2 v) as [c2| |] eqn:Ec2; cbn [rbind] in H; try discriminate.
+  destruct (find_object h root (o_from o)) as [[r key]| | |] eqn:Ef; cbn [rbind] in H; try discriminate.
+  destruct (c_get (node_at h r) key) as [v| | |] eqn:Eg; cbn [rbind] in H; try discriminate.
+  destruct (find_object h root (o_path o)) as [[r2 key2]| | |] eqn:Ef2; cbn [rbind] in H; try discriminate.
+  destruct (c_set (node_at h r2) key2 v) as [c2| | |] eqn:Ec2; cbn [rbind] in H; try discriminate.
   inversion H. subst h'. clear H.
   destruct (find_object_unprot h _ r key HI Hufrom Ef) as [HS [Hlt Hk]].
   pose proof (get_okv h r key v HI HS Hk Eg) as Hv.
@@ -773,8 +779,8 @@ Qed.
 Lemma op_test_same : forall h o h', op_test h root o = ROk h' -> h' = h.
 Proof.
   intros h o h' H. unfold op_test in H.
-  destruct (find_object h root (o_path o)) as [[r key]| |]; cbn [rbind] in H; try discriminate.
-  destruct (c_get (node_at h r) key) as [v| |]; cbn [rbind] in H; try discriminate.
+  destruct (find_object h root (o_path o)) as [[r key]| | |]; cbn [rbind] in H; try discriminate.
+  destruct (c_get (node_at h r) key) as [v| | |]; cbn [rbind] in H; try discriminate.
   destruct (o_value o) as [ov|].
   - destruct v.
     + destruct ov; try discriminate; inversion H; reflexivity.
@@ -802,7 +808,7 @@ Proof.
   induction os as [|o os IH]; intros h h' HI HF H.
   - cbn in H. inversion H. subst. split; [auto|apply Frame_refl].
   - inversion HF as [|o' os' Ho Hos]. subst.
-    cbn [apply_ops] in H. destruct (apply_op h root o) as [h1| |] eqn:E1; cbn [rbind] in H; try discriminate.
+    cbn [apply_ops] in H. destruct (apply_op h root o) as [h1| | |] eqn:E1; cbn [rbind] in H; try discriminate.
     destruct (apply_op_ok h o h1 HI Ho E1) as [HI1 HF1].
     destruct (IH h1 h' HI1 Hos H) as [A B]. split; auto. eapply Frame_trans; eauto.
 Qed.
